@@ -6,7 +6,7 @@ from __future__ import annotations
 
 import ast
 
-from .pyast import (HEADER, Unrecognised, clean, const, cstr, cstrs, find_def, if_chain, kw_defaults,
+from .pyast import (HEADER, Unrecognised, clean, const, cstr, cstrs, find_def, if_chain, kw_defaults, pin_text,
                     module_assign, parse, str_list, unparse)
 
 ARGPARSE_CAUGHT = {"ArgumentTypeError", "ValueError", "TypeError"}  # argparse._get_value turns these into error()
@@ -148,6 +148,19 @@ def emit(repo: str) -> str:
     fields = parse(repo, "simple_parsing/helpers/fields.py")
     true_s = str_list(module_assign(utils, "TRUE_STRINGS"))
     false_s = str_list(module_assign(utils, "FALSE_STRINGS"))
+    # PIN: the arm of FieldWrapper.get_arg_options that hands a bool field to BooleanOptionalAction together with the
+    # conflict prefix (Model/BoolFlag.v takes the positive option's prefix as the negative options' prefix)
+    fwt = parse(repo, "simple_parsing/wrappers/field_wrapper.py")
+    gao = find_def(fwt, "get_arg_options", cls="FieldWrapper")
+    arm = None
+    for n in ast.walk(gao):
+        if isinstance(n, ast.If):
+            for t, b in if_chain(n)[0]:
+                if unparse(t) == "utils.is_bool(self.type)":
+                    arm = b
+    if arm is None:
+        raise Unrecognised("get_arg_options: no arm `utils.is_bool(self.type)`")
+    bool_arm_pin = pin_text("\n".join(unparse(x) for x in arm) + "\n", "get_arg_options.bool_arm")
     s2b = find_def(utils, "str2bool")
     if [a.arg for a in s2b.args.args] != ["raw_value"]:
         raise Unrecognised("str2bool signature")
@@ -176,6 +189,7 @@ def emit(repo: str) -> str:
         f"Definition FALSE_STRINGS : list string := {cstrs(false_s)}.\n"
         f"Definition str2bool_gen (raw_value : string) : option bool :=\n  {s2b_body}.\n"
         f"Definition DEFAULT_NEGATIVE_PREFIX : string := {cstr(neg_prefix)}.\n"
+        f"Definition bool_arm_pinned_gen : string := {cstr(bool_arm_pin)}.\n"
         f"Definition call_table_gen : list (ctest * cbody) := {table}.\n"
         f"Definition call_else_gen : cbody := {els}.\n"
         "(* the model instantiated with the regenerated facts *)\n"
